@@ -19,8 +19,10 @@ import (
 	"encoding/json"
 	"fmt"
 	"log"
+	"math/rand"
 	"net"
 	"os"
+	"runtime"
 	"strings"
 	"time"
 
@@ -41,6 +43,7 @@ type kase struct {
 	Custom  bool            `json:"custom"`
 	Senders []string        `json:"senders"`
 	Ops     [][]interface{} `json:"ops"`
+	OStress *ostress        `json:"ostress"`
 }
 
 type opRes struct {
@@ -49,7 +52,15 @@ type opRes struct {
 	Conn string      `json:"conn,omitempty"` // the sender's connection a successful write went through
 }
 
+type ostress struct {
+	Sections int   `json:"sections"`
+	Seed     int64 `json:"seed"`
+	Raw      bool  `json:"raw"` // the consumer is plain Go code polling the channel (as a client of an OutputChan is), not an InputChan
+}
+
 type result struct {
+	Sent         []int   `json:"sent,omitempty"`
+	Got          []int   `json:"got,omitempty"`
 	ID           int     `json:"id"`
 	Res          []opRes `json:"res"`
 	CommitResend bool    `json:"commit_resend"`
@@ -143,7 +154,131 @@ func waitCh(ch chan struct{}, d time.Duration) bool {
 	}
 }
 
+// OutputChan -> bounded Go channel -> InputChan with a genuinely concurrent consumer: the producer context commits
+// sections of 3-8 values (waiting for each Commit, as MPCalContext does), the consumer context reads and commits one
+// value at a time with random tiny pauses, so the channel keeps filling and draining in the middle of commits.
+func runOStress(k kase) (out result) {
+	out.ID = k.ID
+	goCh := make(chan tla.Value, k.Cap)
+	o := resources.NewOutputChan(goCh)
+	in := resources.NewInputChan(goCh, resources.WithInputChanReadTimeout(ms(k.ReadMs)))
+	pi := distsys.NewMPCalContextWithoutArchetype().IFace()
+	ci := distsys.NewMPCalContextWithoutArchetype().IFace()
+	rng := rand.New(rand.NewSource(k.OStress.Seed))
+	var sent []int
+	n := 0
+	var plan [][]int
+	for s := 0; s < k.OStress.Sections; s++ {
+		var sec []int
+		for j := 0; j < 3+rng.Intn(6); j++ {
+			sec = append(sec, n)
+			n++
+		}
+		plan = append(plan, sec)
+		sent = append(sent, sec...)
+	}
+	out.Sent = sent
+	prodDone := make(chan string, 1)
+	go func() {
+		defer func() {
+			if r := recover(); r != nil {
+				prodDone <- fmt.Sprintf("panic: %v", r)
+			}
+		}()
+		prng := rand.New(rand.NewSource(k.OStress.Seed + 1))
+		for _, sec := range plan {
+			for _, m := range sec {
+				if err := o.WriteValue(pi, tla.MakeNumber(int32(m))); err != nil {
+					prodDone <- err.Error()
+					return
+				}
+			}
+			if prng.Intn(10) == 0 { // a section that aborts now and then: its values must never show up
+				o.Abort(pi)
+				for _, m := range sec {
+					o.WriteValue(pi, tla.MakeNumber(int32(m)))
+				}
+			}
+			if ch := o.Commit(pi); ch != nil {
+				<-ch
+			}
+		}
+		prodDone <- ""
+	}()
+	crng := rand.New(rand.NewSource(k.OStress.Seed + 2))
+	deadline := time.Now().Add(20 * time.Second)
+	if k.OStress.Raw {
+		finished := false
+		spins := 0
+		for time.Now().Before(deadline) {
+			select {
+			case v := <-goCh:
+				out.Got = append(out.Got, int(v.StripVClock().AsNumber()))
+				spins = 0
+				continue
+			default:
+			}
+			spins++
+			if spins%64 == 0 {
+				if !finished {
+					select {
+					case e := <-prodDone:
+						finished = true
+						if e != "" {
+							out.Err = e
+						}
+					default:
+					}
+				} else if spins > 200000 {
+					return
+				}
+				if crng.Intn(8) == 0 {
+					runtime.Gosched()
+				}
+			}
+		}
+		out.Err = "hang"
+		return
+	}
+	idle := 0
+	for len(out.Got) < len(sent)+8 && time.Now().Before(deadline) {
+		v, err := in.ReadValue(ci)
+		if err != nil {
+			in.Abort(ci)
+			idle++
+			select {
+			case e := <-prodDone:
+				if e != "" {
+					out.Err = e
+				}
+				prodDone <- e
+				if idle >= 2 {
+					return
+				}
+			default:
+			}
+			continue
+		}
+		idle = 0
+		in.Commit(ci)
+		out.Got = append(out.Got, int(v.StripVClock().AsNumber()))
+		switch crng.Intn(6) {
+		case 0:
+			runtime.Gosched()
+		case 1:
+			time.Sleep(time.Duration(crng.Intn(30)) * time.Microsecond)
+		}
+	}
+	if time.Now().After(deadline) {
+		out.Err = "hang"
+	}
+	return
+}
+
 func runCase(k kase) (out result) {
+	if k.OStress != nil {
+		return runOStress(k)
+	}
 	out.ID = k.ID
 	var logBuf bytes.Buffer
 	log.SetOutput(&logBuf)
@@ -229,6 +364,7 @@ func runCase(k kase) (out result) {
 		}
 	}()
 	hung := false
+	lenDirty := false
 	for _, op := range k.Ops {
 		if hung {
 			out.Res = append(out.Res, opRes{St: "skip"})
@@ -396,6 +532,16 @@ func runCase(k kase) (out result) {
 					return opRes{St: "ok", V: n}
 				}
 				if isAbort(err) {
+					// MPCalContext.abort(): the receiver's section is rolled back (reads in progress go back to the backlog)
+					if ch := recv.top.Abort(iface); ch != nil {
+						<-ch
+					}
+					if lenDirty {
+						if ch := lenRes.Abort(iface); ch != nil {
+							<-ch
+						}
+						lenDirty = false
+					}
 					return opRes{St: "abort"}
 				}
 				return opRes{St: "err:" + err.Error()}
@@ -404,10 +550,22 @@ func runCase(k kase) (out result) {
 			if ch := recv.top.Commit(iface); ch != nil {
 				<-ch
 			}
+			if lenDirty {
+				if ch := lenRes.Commit(iface); ch != nil {
+					<-ch
+				}
+				lenDirty = false
+			}
 			r = opRes{St: "ok"}
 		case "ra":
 			if ch := recv.top.Abort(iface); ch != nil {
 				<-ch
+			}
+			if lenDirty {
+				if ch := lenRes.Abort(iface); ch != nil {
+					<-ch
+				}
+				lenDirty = false
 			}
 			r = opRes{St: "ok"}
 		case "len":
@@ -420,9 +578,9 @@ func runCase(k kase) (out result) {
 				if err != nil {
 					return opRes{St: "err:" + err.Error()}
 				}
-				if ch := lenRes.Commit(iface); ch != nil {
-					<-ch
-				}
+				// the length resource is part of the receiver's section: it is committed / aborted with it ("rc" / "ra"),
+				// as MPCalContext does with every dirty resource, not after each read
+				lenDirty = true
 				return opRes{St: "ok", V: int(v.StripVClock().AsNumber())}
 			})
 		case "waitq": // wait until the receive queue holds n records (hand-over from the handlers is asynchronous)
